@@ -1,0 +1,12 @@
+//go:build !verif
+
+// Package verifhook provides scheduling/trace points for external verification
+// harnesses. Without the "verif" build tag every function is an empty,
+// inlinable no-op.
+package verifhook
+
+// Enabled reports whether hooks are compiled in.
+const Enabled = false
+
+// Point marks a named point of interest.
+func Point(string, ...any) {}
